@@ -64,7 +64,7 @@ func (file *File) Readn(buf []byte, offset uint64) (int, error) {
 	ret := 0
 	for len(buf) > 0 {
 		n, err := file.ReadAt(buf, int64(offset))
-		if err != nil {
+		if err != nil && err != io.EOF {
 			return 0, err
 		}
 
